@@ -700,6 +700,28 @@ class Polarity(Interp):
                 cond, x, y = allv
                 if cond.is_const:
                     return self.join(x, y)
+                # where(mask, 1, old) / where(mask, 0, old): the out-of-place form of the masked stores t[mask] = 1 / t[mask] = 0
+                raw = list(node.args) if not is_method else [node.func.value] + list(node.args)
+
+                def const_01(e, pv):
+                    if isinstance(pv, PV) and pv.lit in (1, 1.0, True, 0, 0.0, False) and pv.lit is not None:
+                        return 1 if pv.lit in (1, 1.0, True) else 0
+                    if isinstance(e, ast.Call) and (call_name(e) or "").split(".")[-1] in ("ones_like", "ones"):
+                        return 1
+                    if isinstance(e, ast.Call) and (call_name(e) or "").split(".")[-1] in ("zeros_like", "zeros"):
+                        return 0
+                    return None
+
+                if len(raw) == 3:
+                    cx, cy = const_01(raw[1], x), const_01(raw[2], y)
+                    if cx is not None and cy is None:
+                        self.idioms.append(f"{unparse(node)[:60]}: where(mask, {cx}, old) read as the masked store old[mask] = {cx}")
+                        return self.join(y, mk(cond.poldict()) if cx == 1 else mk(flipped(cond)))
+                    if cy is not None and cx is None:
+                        self.idioms.append(f"{unparse(node)[:60]}: where(mask, new, {cy}) read as the masked store of {cy} on the complement")
+                        return self.join(x, mk(flipped(cond)) if cy == 1 else mk(cond.poldict()))
+                    if cx is not None and cy is not None and cx != cy:
+                        return mk(cond.poldict()) if cx == 1 else mk(flipped(cond))
             self.note_unknown(node)
             return TOPV
         if short in ("cat", "stack", "concat", "concatenate", "hstack", "vstack"):
